@@ -1,6 +1,6 @@
 """C11: argv, working directory and executable resolution. TLC (MCArgv) enumerates the cases, the real
 binary is run on each with vhelper links recording argv/cwd/exe, TLC (RunJudge, Plan.tla) judges."""
-import json, os, random, itertools
+import json, os, random, itertools, shutil
 from concurrent.futures import ThreadPoolExecutor
 import vlib, fixture, runlib
 
@@ -71,7 +71,14 @@ def drive_case(bins, case, idx):
                 if idx % 4 == 2 and m == "base" and tp == "svc":
                     # a base argmap that takes long to parse next to tiny named ones (order must not depend on parse time)
                     on_disk["zz-unused-command"] = ["filler-%06d-%s" % (i, "x" * 40) for i in range(120000)]
-                with open(os.path.join(d, concrete_map_name(m, idx) + ".json"), "w") as f:
+                fpath = os.path.join(d, concrete_map_name(m, idx) + ".json")
+                if idx % 5 == 3:
+                    # the argmap file is a symbolic link to a file kept elsewhere (shared between targets, say): it exists
+                    real = os.path.join(fx.repo, "shared-maps", "%s-%s.json" % (tp, m))
+                    os.makedirs(os.path.dirname(real), exist_ok=True)
+                    os.symlink(os.path.relpath(real, d) if idx % 2 else real, fpath)
+                    fpath = real
+                with open(fpath, "w") as f:
                     json.dump(on_disk, f)
         candidates = {}
         for tp in tpaths:
@@ -112,7 +119,18 @@ def drive_case(bins, case, idx):
         if case.get("deps"):
             args += ["-t", "svc", "--deps"]
         fx.reset_helper()
-        res = fx.monorail(args)
+        cwd = None
+        if idx % 4 == 1:
+            # invoked from another directory that happens to look like a checkout too (same relative paths, other files):
+            # what is executed is determined by the configuration's location, not by where the caller stands
+            cwd = os.path.join(fx.root, "elsewhere")
+            for rel in ["svc/tools/run-build"] + [c["path"] if isinstance(c["path"], str) else "/".join(c["path"]) for cs in candidates.values() for c in cs]:
+                dp = os.path.join(cwd, rel)
+                os.makedirs(os.path.dirname(dp), exist_ok=True)
+                if not os.path.lexists(dp):
+                    shutil.copyfile(fx.bins["vhelper"], dp)
+                    os.chmod(dp, 0o755)
+        res = fx.monorail(args, cwd=cwd)
         evs = fx.events()
         recs = []
         run_targets = ["svc"] if single else tpaths
@@ -126,8 +144,8 @@ def drive_case(bins, case, idx):
                 named = [[m, (files.get((tp, m)) or {}).get(c, [])] for m in ("m1", "m2") if files.get((tp, m)) is not None and c in files[(tp, m)]]
                 if mine:
                     e = mine[0]
-                    obs = {"started": len(mine), "argv": e["argv"][1:], "cwd": runlib.P(os.path.relpath(e["cwd"], fx.repo)),
-                           "exe": runlib.P(os.path.relpath(e["argv"][0], fx.repo))}
+                    obs = {"started": len(mine), "argv": e["argv"][1:], "cwd": runlib.P(fx.rel(e["cwd"])),
+                           "exe": runlib.P(fx.rel(e["argv"][0]))}
                 else:
                     obs = {"started": 0, "argv": [], "cwd": [], "exe": []}
                 hasdef = (tp == "svc" and c == "build" and case["resolve"] == "defpath")
